@@ -764,6 +764,32 @@ def judge_flag_ops(ctx, word):
                 repr((word, opn)).encode(), digest_size=8).digest())
 
 
+    # the embedder's str-keyed settings are no integer flags: a flag
+    # instruction that NAMES one leaves it in force (a disallowed EVAL stays
+    # disallowed)
+    if EVAL_BASED & set(word):
+        return
+    for opn in ('SET_FLAG', 'UNSET_FLAG'):
+        for name in (b'disallow_OP_EVAL', b'disallow_op_eval'):
+            # (the evaluated script leaves a cache entry behind: inside a
+            # TRY the refusal of the EVAL is not visible as an error)
+            body = O(opn) + bytes([len(name)]) + name \
+                + isa.push(dscalar) + O('EVAL')
+            script = place(word, body)
+            res = execute(script, {'additional_flags':
+                                   {1: True, 'disallow_OP_EVAL': True}})
+            ctx.evaluated()
+            ctx.count('flag_instruction_names_embedder_setting')
+            if res['raised'] is None and b'x' in res['cache']:
+                ctx.violation('flag-instruction-lifted-embedder-setting',
+                              f'after {opn} {name!r} an EVAL ran although '
+                              'the embedder disallowed it',
+                              {'word': list(word), 'probe': 'OP_' + opn,
+                               'script': script,
+                               'config': 'disallow_OP_EVAL'},
+                              'error at EVAL', 'no error')
+
+
 def run_shard(spec, ctx):
     i, of = spec['shard'], spec['of']
     maxlen = 2 if ctx.tier == 'quick' else 3
